@@ -601,19 +601,20 @@ func runC18R6(c *Ctx, rule string) {
 		if prog.Short(prog.FnPkg(fn).Path()) != "pkg/cookies" {
 			continue
 		}
-		calls := false
+		// functions that compare strings and can reach GetRequestHost (directly or through a helper)
+		compares := false
 		for _, b := range fn.Blocks {
 			for _, in := range b.Instrs {
-				if call, ok := in.(*ssa.Call); ok && call.Call.StaticCallee() == getHost {
-					calls = true
+				if call, ok := in.(*ssa.Call); ok && (isStd(&call.Call, "strings", "HasSuffix") || isStd(&call.Call, "strings", "HasPrefix") || isStd(&call.Call, "strings", "EqualFold")) {
+					compares = true
 				}
 			}
 		}
-		if !calls {
+		if !compares || !c.staticReach(fn, 2)[getHost] {
 			continue
 		}
 		fn := fn
-		c.WalkShallow(rule, fn, func(p *walk.Path) {
+		c.Walk(rule, fn, func(p *walk.Path) {
 			for _, cl := range p.Calls() {
 				if !(isStd(cl.C, "strings", "HasSuffix") || isStd(cl.C, "strings", "HasPrefix") || isStd(cl.C, "strings", "EqualFold")) {
 					continue
